@@ -202,3 +202,16 @@ package wal
 //@ loop 1
 //@   invariant w.state.Term == old(w.state.Term) && w.state.Vote == old(w.state.Vote) && w.optimizedFsync == old(w.optimizedFsync) && sameSlice(w.locks, old(w.locks)) && ghost(flushes, nil) == old(ghost(flushes, nil)) && ghost(fsyncs, nil) == old(ghost(fsyncs, nil))
 //@   invariant w.locks[len(w.locks)-1] == old(w.locks[len(w.locks)-1])
+
+// the snapshot marker: encoded, flushed (fsynced unless the optimized-fsync mode defers that to the explicit Sync of
+// the caller) and the last-index cursor only moves forward
+//@ func (w *WAL) SaveSnapshot(e walpb.Snapshot) error
+//@   requires w != nil && encOK(w.encoder) && len(w.locks) >= 1 && w.locks[len(w.locks)-1] != nil
+//@   ensures result == nil ==> ghost(flushes, nil) > old(ghost(flushes, nil)) && (old(w.optimizedFsync) || ghost(fsyncs, nil) > old(ghost(fsyncs, nil)))
+//@   ensures result == nil ==> w.enti == max(old(w.enti), e.Index)
+//@   ensures w.enti >= old(w.enti)
+//@   modifies *
+//@ func (w *WAL) saveCrc(prevCrc uint32) error
+//@   requires w != nil && encOK(w.encoder)
+//@   callassert encode arg1.Type == crcType && arg1.Crc == prevCrc && len(arg1.Data) == 0
+//@   modifies *
